@@ -87,6 +87,25 @@ def bad_payloads(rng, cd, good):
         out.append(bytes([h, 0xff, 0xff, 0x41]))
         out.append(bytes([h, 0x00, 0x01, 0x41, 0x00]))
         out.append(bytes([h, 0x00, 0x01, 0x41, 0x00, 0x09, 0x41]))
+    # parameter-set NAL units that must not replace the stream's own sets: truncated, bit-flipped, oversized,
+    # alone and inside an aggregation packet
+    if cd == H264:
+        sps, pps = bytes([0x67, 0x64, 0x00, 0x1f, 0xac, 0xd9, 0x40, 0x50]), bytes([0x68, 0xef, 0xbc, 0xb0])
+        for ps in (sps, pps):
+            for n in (1, 2, 3, len(ps)):
+                out.append(ps[:n])
+            out.append(bytes([ps[0], ps[1] ^ 0xff]) + ps[2:])
+            out.append(ps + c06.rbytes(rng, 1500))
+            out.append(bytes([0x78, 0, 3]) + ps[:3])
+            out.append(bytes([0x78, 0, len(ps)]) + ps + bytes([0, 2, 0x41, 0x9a]))
+    elif cd == H265:
+        vps, sps, pps = bytes([0x40, 1, 0x0c, 1, 0xff, 0xff]), bytes([0x42, 1, 1, 1, 0x60, 0]), bytes([0x44, 1, 0xc1, 0x72])
+        for ps in (vps, sps, pps):
+            for n in (2, 3, len(ps)):
+                out.append(ps[:n])
+            out.append(ps[:2] + bytes([ps[2] ^ 0xff]) + ps[3:])
+            out.append(ps + c06.rbytes(rng, 1500))
+            out.append(bytes([0x60, 1, 0, 3]) + ps[:3])
     if cd == AAC:
         out += [bytes([0, 16, 0, 80, 1, 2]), bytes([0, 32, 0, 8]), bytes([0xff, 0xf0]) + c06.rbytes(rng, 30),
                 bytes([0, 16, 0xff, 0xf8]) + c06.rbytes(rng, 10), bytes([0, 16]), bytes([0, 17, 0])]
@@ -182,6 +201,19 @@ def run(ck):
                     ksuf = rng.choice([ndata, ndata + 1, rng.randint(0, 65535)])
                     plans.append([cd, clock, cc, seq0, ksuf, pin, e2, gen_suffix(rng, cd)])
                     kind("payload fault (truncation / corrupted field / hostile payload)")
+        # a parameter set reassembled from fragments (FU-A / FU): start + end fragment with consecutive sequence numbers
+        for (cd, clock, cc, seq0, evs, ndata) in base:
+            if cd == AAC:
+                continue
+            for typ in ((7, 8) if cd == H264 else (32, 33, 34)):
+                if cd == H264:
+                    frs = [bytes([0x7c, 0x80 | typ, 0x64]), bytes([0x7c, 0x40 | typ, 0x00])]
+                else:
+                    frs = [bytes([0x62, 1, 0x80 | typ, 1]), bytes([0x62, 1, 0x40 | typ, 2])]
+                pos = rng.randrange(len(evs) + 1)
+                e2 = evs[:pos] + [[4, 30000, 777, 0, frs[0]], [4, 30001, 777, 1, frs[1]]] + evs[pos:]
+                plans.append([cd, clock, cc, seq0, ndata, [rng.randint(1, 2**32 - 1), 7, 9], e2, gen_suffix(rng, cd)])
+                kind("payload fault (truncation / corrupted field / hostile payload)")
         # RTCP garbage at every position of a few streams
         for (cd, clock, cc, seq0, evs, ndata) in base[:6 if not T else 30]:
             for bad in bad_rtcp(rng):
@@ -325,6 +357,11 @@ def run(ck):
                      bytes([0x78]), bytes([0x78, 0]), bytes([0x7c]), bytes([0x7c, 0x85]), bytes([0x7d, 0x45, 1])]
         for pl in joinshape:
             faults.append(rtp_frame(0, pl))                      # classification of a hostile aggregation packet (join section)
+        psets = [bytes([0x67, 0x64, 0x00]), bytes([0x67]), bytes([0x68]), bytes([0x68, 0xef]), bytes([0x67, 0x9b, 0xff, 0xe0]) + c06.rbytes(rng, 30),
+                 bytes([0x67]) + c06.rbytes(rng, 1400), bytes([0x78, 0, 3, 0x67, 0x64, 0x00]), bytes([0x78, 0, 1, 0x68, 0, 2, 0x41, 0x9a]),
+                 bytes([0x27, 0x64, 0x00]), bytes([0x28])]
+        for pl in psets:
+            faults.append(rtp_frame(0, pl))                      # malformed in-band parameter sets (shared metadata)
         some = base[0][4] if base else []
         good_v = next((e[4] for (cd, _, _, _, evs, _) in base if cd == H264 for e in evs if e[0] == 4), bytes([0x41, 1, 2, 3]))
         good_a = next((e[4] for (cd, _, _, _, evs, _) in base if cd == AAC for e in evs if e[0] == 4), bytes([0, 16, 0, 16, 1, 2]))
@@ -340,9 +377,11 @@ def run(ck):
         faults = [calm(f) for f in faults]
         rng.shuffle(faults)
         if not T:
-            faults = joinshape_first(faults, [calm(rtp_frame(0, pl)) for pl in joinshape], 420)
+            faults = joinshape_first(faults, [calm(rtp_frame(0, pl)) for pl in joinshape + psets], 420)
         per = 140
         iso = [[1, faults[i:i + per]] for i in range(0, len(faults), per)]
+        # the malformed parameter set is the very first packet of the stream (before any sequence header / segment)
+        iso += [[2, [calm(rtp_frame(0, pl)), calm(rtp_frame(0, rng.choice(psets)))]] for pl in psets[:4]]
         kind("isolation fault (two streams, two sessions)", len(faults))
         ck.extra["isolation_faults"] = len(faults)
         c06.eval_stream(ck, "isolation", iso, None, "iso", "C07_iso_ok", nontrivial=lambda c: len(c[1]) >= 2, compare=False,
